@@ -447,7 +447,7 @@ func ruleSoleDeleter(c *Ctx) {
 func deadlineExtenders(c *Ctx, m *udpModel) []*ssa.Function {
 	seen := map[*ssa.Function]bool{}
 	var out []*ssa.Function
-	for _, st := range c.P.FieldStores(m.connT, m.dlField) {
+	for _, st := range c.P.FieldStores(m.dlT, m.dlField) {
 		if !st.Fresh && !seen[st.Fn] {
 			seen[st.Fn] = true
 			out = append(out, st.Fn)
@@ -478,7 +478,7 @@ func ruleArm(c *Ctx) {
 				return true
 			}
 		}
-		_, isSt := isStoreToField(ins, m.connT, m.dlField)
+		_, isSt := isStoreToField(ins, m.dlT, m.dlField)
 		return isSt
 	}
 	isSend := func(ins ssa.Instruction) bool {
@@ -510,13 +510,13 @@ func ruleArm(c *Ctx) {
 		if !isC || eng.CalleeName(&cl.Call) != "(time.Time).After" {
 			return false
 		}
-		return p.AnyFrom(cl.Call.Args[1], eng.Plain, func(v ssa.Value) bool { return eng.IsFieldLoad(v, m.connT, m.dlField) })
+		return p.AnyFrom(cl.Call.Args[1], eng.Plain, func(v ssa.Value) bool { return eng.IsFieldLoad(v, m.dlT, m.dlField) })
 	}
 	ok, bad := reg.BeforeDeep(armed, isSend)
 	c.Check("ARM", short(wt)+":deadline-extended-before-send", p.Pos(wt.Pos()), ok, fmt.Sprintf("a datagram can be sent through the association (%s) without the deadline hook having run first (e.g. only after a successful send): an association whose first send fails never gets a deadline and is never reclaimed", p.IPos(bad)))
 	_ = isExt
 	// the hook is given the destination address of this write (or something computed from it)
-	isStoreDL := func(ins ssa.Instruction) bool { _, ok := isStoreToField(ins, m.connT, m.dlField); return ok }
+	isStoreDL := func(ins ssa.Instruction) bool { _, ok := isStoreToField(ins, m.dlT, m.dlField); return ok }
 	mayStore := reg.May(isStoreDL)
 	argsOf := func(cc *ssa.Call) []ssa.Value { return cc.Call.Args }
 	for _, cl := range eng.Calls(wt) {
@@ -610,16 +610,35 @@ func ruleMonotone(c *Ctx) {
 			v := p.Resolve(eng.Arg(&call.Call, 0))
 			key := short(f) + ":SetReadDeadline"
 			if vc, isCall := v.(*ssa.Call); isCall && eng.CalleeName(&vc.Call) == "time.Now" {
-				inOnce := false
-				if par := f.Parent(); par != nil {
-					for _, pc := range eng.Calls(par) {
-						if eng.CalleeName(pc.Common()) == "(*sync.Once).Do" {
-							if mc, ok := pc.Common().Args[1].(*ssa.MakeClosure); ok && mc.Fn == ssa.Value(f) {
-								inOnce = true
+				// run only by the one-shot latch: f is the closure handed to Once.Do, or a method all of whose callers are
+				var onceOnly func(g *ssa.Function, d int) bool
+				onceOnly = func(g *ssa.Function, d int) bool {
+					if par := g.Parent(); par != nil {
+						for _, pc := range eng.Calls(par) {
+							if eng.CalleeName(pc.Common()) == "(*sync.Once).Do" {
+								if mc, ok := pc.Common().Args[1].(*ssa.MakeClosure); ok && mc.Fn == ssa.Value(g) {
+									return true
+								}
 							}
 						}
 					}
+					if d >= 2 {
+						return false
+					}
+					sites := p.CallSitesOf(g)
+					n := 0
+					for _, s := range sites {
+						if p.IsTestSupport(s.Fn) {
+							continue
+						}
+						n++
+						if !onceOnly(s.Fn, d+1) {
+							return false
+						}
+					}
+					return n > 0
 				}
+				inOnce := onceOnly(f, 0)
 				fromWrite := c.P.Reach(c.L(), m.connWrite)[f]
 				c.CheckAt("MONOTONE", key+":immediate-expiry", call, inOnce && !fromWrite, "an immediate deadline (time.Now()) is set outside the one-shot fast-close latch or on the write path: the association's deadline can move earlier")
 				// ... and only for a datagram whose source is classified as DNS ("the first response from a DNS server"): cut by
@@ -636,14 +655,80 @@ func ruleMonotone(c *Ctx) {
 				if !ok || eng.CalleeName(&ac.Call) != "(time.Time).After" {
 					return false
 				}
-				return p.Resolve(ac.Call.Args[0]) == v && p.AnyFrom(ac.Call.Args[1], eng.Plain, func(y ssa.Value) bool { return eng.IsFieldLoad(y, m.connT, m.dlField) })
+				return p.Resolve(ac.Call.Args[0]) == v && p.AnyFrom(ac.Call.Args[1], eng.Plain, func(y ssa.Value) bool { return eng.IsFieldLoad(y, m.dlT, m.dlField) })
 			}
 			tEdges, _ := eng.BoolEdges(f, isAfter)
-			c.CheckAt("MONOTONE", key+":only-when-later", call, len(tEdges) > 0 && eng.Cut(f, call.Block(), tEdges), "a new read deadline is installed without testing that it is later than the current one: the deadline can move earlier")
 			recorded := false
+			// ... or the test-and-record step is a helper of the deadline (advance(to) bool): true exactly when `to` is later
+			// than the recorded deadline, which it then replaces
+			for _, cl2 := range eng.Calls(f) {
+				hc, isC := cl2.(*ssa.Call)
+				if !isC {
+					continue
+				}
+				h := hc.Call.StaticCallee()
+				if h == nil || !p.InRepo(h) || len(h.Blocks) == 0 || h.Signature.Results().Len() != 1 || h.Signature.Results().At(0).Type().String() != "bool" {
+					continue
+				}
+				for i, pa := range h.Params {
+					if i >= len(hc.Call.Args) || p.Resolve(hc.Call.Args[i]) != v || pa.Type().String() != "time.Time" {
+						continue
+					}
+					later, _ := eng.BoolEdges(h, func(x ssa.Value) bool {
+						ac, ok := x.(*ssa.Call)
+						return ok && eng.CalleeName(&ac.Call) == "(time.Time).After" && p.Resolve(ac.Call.Args[0]) == ssa.Value(pa) &&
+							p.AnyFrom(ac.Call.Args[1], eng.Plain, func(y ssa.Value) bool { return eng.IsFieldLoad(y, m.dlT, m.dlField) })
+					})
+					if len(later) == 0 {
+						continue
+					}
+					okH := true
+					for _, r := range eng.Returns(h) {
+						cst, isK := retVal(p, r).(*ssa.Const)
+						if !isK || cst.Value == nil {
+							okH = false
+							continue
+						}
+						isTrue := cst.Value.ExactString() == "true"
+						cut := eng.Cut(h, r.Block(), later)
+						if isTrue != cut {
+							okH = false
+						}
+						if isTrue {
+							stored := false
+							for _, b := range h.Blocks {
+								for _, ins := range b.Instrs {
+									if st, ok := isStoreToField(ins, m.dlT, m.dlField); ok && p.Resolve(st.Val) == ssa.Value(pa) && eng.Dominates(ins, r) {
+										stored = true
+									}
+								}
+							}
+							if !stored {
+								okH = false
+							}
+						}
+					}
+					// no store of the deadline on the not-later side
+					for _, b := range h.Blocks {
+						for _, ins := range b.Instrs {
+							if _, ok := isStoreToField(ins, m.dlT, m.dlField); ok && !eng.Cut(h, b, later) {
+								okH = false
+							}
+						}
+					}
+					if okH {
+						te, _ := eng.BoolEdges(f, func(x ssa.Value) bool { return x == ssa.Value(hc) })
+						tEdges = eng.Union(tEdges, te)
+						if len(te) > 0 && eng.Cut(f, call.Block(), te) {
+							recorded = true
+						}
+					}
+				}
+			}
+			c.CheckAt("MONOTONE", key+":only-when-later", call, len(tEdges) > 0 && eng.Cut(f, call.Block(), tEdges), "a new read deadline is installed without testing that it is later than the current one: the deadline can move earlier")
 			for _, b := range f.Blocks {
 				for _, ins := range b.Instrs {
-					if st, ok := isStoreToField(ins, m.connT, m.dlField); ok && p.Resolve(st.Val) == v && len(tEdges) > 0 && eng.Cut(f, b, tEdges) {
+					if st, ok := isStoreToField(ins, m.dlT, m.dlField); ok && p.Resolve(st.Val) == v && len(tEdges) > 0 && eng.Cut(f, b, tEdges) {
 						recorded = true
 					}
 				}
@@ -662,12 +747,16 @@ func ruleMonotone(c *Ctx) {
 		}
 	}
 	c.Floor("MONOTONE", "SetReadDeadline calls in association methods", n, 2)
-	for _, st := range p.FieldStores(m.connT, m.dlField) {
+	for _, st := range p.FieldStores(m.dlT, m.dlField) {
 		if st.Fresh {
 			continue
 		}
 		root := eng.Root(st.Fn)
-		ok := root.Signature.Recv() != nil && eng.TypeName(root.Signature.Recv().Type()) == m.connT
+		rt := ""
+		if root.Signature.Recv() != nil {
+			rt = eng.TypeName(root.Signature.Recv().Type())
+		}
+		ok := rt == m.connT || rt == m.dlT
 		c.CheckAt("MONOTONE", "deadline-field-store:"+short(st.Fn), st.Ins, ok, "the association's deadline field is written outside the association's own methods")
 	}
 }
